@@ -102,14 +102,40 @@ def leavesUpTo (n : Node) (id : Nat) : Nat :=
   | some p => (p.map (fun b => b.outs.length)).foldl (· + ·) 0
   | none => 0
 
-/-- `Chain::block_height_range_to_pmmr_indices(start, Some(end))`: the headers come from the header
-MMR; `output_mmr_size` of an accepted header is the size of the MMR after its block -/
-def heightRangeToPmmr (n : Node) (startH endH : Nat) : Except Err (Nat × Nat) :=
-  let sizeAt (h : Nat) : Option Nat := (n.headerAtHeight h).map fun b => mmr (leavesUpTo n b.id)
-  let start : Option Nat := if startH = 0 then some 0 else (sizeAt (startH - 1)).map (· + 1)
-  match start, sizeAt endH with
-  | some s, some e => .ok (s, e)
-  | _, _ => .error "StoreErr"
+/-- `Chain::get_header_by_height` with its errors: `PMMRHandle::get_header_hash_by_height` refuses
+`height >= self.size` - the SIZE of the header MMR in positions, not its number of headers - with
+`InvalidHeaderHeight`; between the number of headers and that size the position asked for lies
+beyond the MMR and `get_data` finds nothing (`Other`) -/
+def headerAtHeightE (n : Node) (height : Nat) : Except Err Blk :=
+  match n.path n.hhead with
+  | some p =>
+    if height ≥ mmr p.length then .error "InvalidHeaderHeight" else
+    match p[height]? with
+    | some b => .ok b
+    | none => .error "Other"
+  | none => .error "StoreErr"
+
+/-- `Chain::block_height_range_to_pmmr_indices(start, end)`: the headers come from the header MMR
+(also when the header head is on another fork than the body head, or ahead of it);
+`output_mmr_size` of an accepted header is the size of the MMR after its block; `end = None` is the
+height of the BODY head (`head_header()`), looked up in the HEADER MMR like the others -/
+def heightRangeToPmmr (n : Node) (startH : Nat) (endH : Option Nat) : Except Err (Nat × Nat) :=
+  let endH := endH.getD (n.heightOf n.head)
+  let sizeAt (h : Nat) : Except Err Nat :=
+    match headerAtHeightE n h with
+    | .ok b => .ok (mmr (leavesUpTo n b.id))
+    | .error e => .error e
+  let start : Except Err Nat :=
+    if startH = 0 then .ok 0 else
+    match sizeAt (startH - 1) with
+    | .ok s => .ok (s + 1)
+    | .error e => .error e
+  match start with
+  | .error e => .error e
+  | .ok s =>
+    match sizeAt endH with
+    | .ok e => .ok (s, e)
+    | .error e => .error e
 
 /-- `txhashset::input_pos_to_rewind(horizon_header, head_header)` (chain/src/txhashset/txhashset.rs),
 the bitmap `TxHashSet::compact` hands to the backends as "spent above the horizon, keep for a
